@@ -109,6 +109,14 @@ func negligible(t, s *big.Float, bits int) bool {
 // bounded by t_n * r/(1-r) with r = max(ratio_n, x), so the loop stops when
 // that bound is below 2^-160 of the sum. Returns the number of terms used.
 func betaSeries(x, y *big.Float, a, b float64, lnB *big.Float) (*big.Float, int) {
+	return betaSeriesL(x, y, a, b, lnB, nil, nil, nil)
+}
+
+// betaSeriesL is betaSeries with ln x, ln y and ln a supplied by the caller
+// (nil: computed here). They are the expensive, argument-only parts of the
+// prefactor; a caller that evaluates a fixed ladder of x on a fixed table of
+// (a,b) computes each of them once.
+func betaSeriesL(x, y *big.Float, a, b float64, lnB, lnx, lny, lna *big.Float) (*big.Float, int) {
 	A, Bf := NF(a), NF(b)
 	ab := Add(A, Bf)
 	one := NF(1)
@@ -141,8 +149,17 @@ func betaSeries(x, y *big.Float, a, b float64, lnB *big.Float) (*big.Float, int)
 		}
 	}
 	// prefactor exp(a ln x + b ln y - ln a - lnB)
-	e := Add(Mul(A, Log(x)), Mul(Bf, Log(y)))
-	e = Sub(Sub(e, Log(A)), lnB)
+	if lnx == nil {
+		lnx = Log(x)
+	}
+	if lny == nil {
+		lny = Log(y)
+	}
+	if lna == nil {
+		lna = Log(A)
+	}
+	e := Add(Mul(A, lnx), Mul(Bf, lny))
+	e = Sub(Sub(e, lna), lnB)
 	return Mul(Exp(e), sum), n
 }
 
@@ -162,6 +179,52 @@ func BetaIncBig(x, a, b float64) (*big.Float, int) {
 		return betaSeries(X, Y, a, b, lnB)
 	}
 	v, n := betaSeries(Y, X, b, a, lnB)
+	return Sub(NF(1), v), n
+}
+
+// BetaXPre holds the parts of BetaIncBig that depend on x only.
+type BetaXPre struct {
+	x              float64
+	X, Y, LnX, LnY *big.Float
+}
+
+// NewBetaXPre prepares a 0 < x < 1.
+func NewBetaXPre(x float64) *BetaXPre {
+	if !(x > 0 && x < 1) {
+		panic("ref.NewBetaXPre: x not inside (0,1)")
+	}
+	X := NF(x)
+	Y := Sub(NF(1), X) // as in BetaIncBig
+	return &BetaXPre{x: x, X: X, Y: Y, LnX: Log(X), LnY: Log(Y)}
+}
+
+// BetaABPre holds the parts of BetaIncBig that depend on (a,b) only.
+type BetaABPre struct {
+	a, b           float64
+	LnB, LnA, LnBp *big.Float // ln B(a,b), ln a, ln b
+}
+
+// NewBetaABPre prepares a pair; lga and lgb are LnGamma(a) and LnGamma(b) if
+// the caller has them already (nil: computed here).
+func NewBetaABPre(a, b float64, lga, lgb *big.Float) *BetaABPre {
+	if lga == nil {
+		lga = LnGamma(NF(a))
+	}
+	if lgb == nil {
+		lgb = LnGamma(NF(b))
+	}
+	ab := Add(NF(a), NF(b))
+	return &BetaABPre{a: a, b: b, LnB: Sub(Add(lga, lgb), LnGamma(ab)), LnA: Log(NF(a)), LnBp: Log(NF(b))}
+}
+
+// BetaIncBigPre is BetaIncBig(px.x, pab.a, pab.b): the same series, the same
+// choice of route, with the logarithms taken from the two tables.
+func BetaIncBigPre(px *BetaXPre, pab *BetaABPre) (*big.Float, int) {
+	a, b := pab.a, pab.b
+	if px.x <= (a+1)/(a+b+2) {
+		return betaSeriesL(px.X, px.Y, a, b, pab.LnB, px.LnX, px.LnY, pab.LnA)
+	}
+	v, n := betaSeriesL(px.Y, px.X, b, a, pab.LnB, px.LnY, px.LnX, pab.LnBp)
 	return Sub(NF(1), v), n
 }
 
@@ -210,6 +273,12 @@ func BetaIncInt(x float64, a, b int) *big.Float {
 // Far in the upper tail the Chernoff bound Q <= exp(-(x-a)) (x/a)^a is used:
 // when it is below e^-100 the function returns P=1, Q=0.
 func GammaIncBig(a, x float64) (P, Q *big.Float) {
+	return GammaIncBigLg(a, x, nil)
+}
+
+// GammaIncBigLg is GammaIncBig with LnGamma(a+1) supplied by the caller (nil:
+// computed here), for callers that evaluate many x on one a.
+func GammaIncBigLg(a, x float64, lg1 *big.Float) (P, Q *big.Float) {
 	if x <= 0 {
 		return nf(), NF(1)
 	}
@@ -237,7 +306,10 @@ func GammaIncBig(a, x float64) (P, Q *big.Float) {
 			panic("ref.GammaIncBig: no convergence")
 		}
 	}
-	e := Sub(Sub(Mul(A, Log(X)), X), LnGamma(Add(A, one)))
+	if lg1 == nil {
+		lg1 = LnGamma(Add(A, one))
+	}
+	e := Sub(Sub(Mul(A, Log(X)), X), lg1)
 	P = Mul(Exp(e), sum)
 	Q = Sub(one, P)
 	return
@@ -352,9 +424,33 @@ func C08SelfTest() error {
 			return fmt.Errorf("I_%v(1,%v) != 1-(1-x)^b by %g", x, b, d)
 		}
 	}
+	// the table-driven variants are the same computation
+	for _, c := range [][3]float64{{0x1p-55, 0.5, 0.5}, {1e-17, 0.05, 300}, {1 - 0x1p-20, 2.5, 0.05}, {0.1, 300, 1 + 0x1p-52}, {1e-300, 0.05, 0.05}, {0.01, 20, 171}} {
+		x, a, b := c[0], c[1], c[2]
+		w, _ := BetaIncBig(x, a, b)
+		v, _ := BetaIncBigPre(NewBetaXPre(x), NewBetaABPre(a, b, nil, nil))
+		if d := math.Abs(F64(Sub(v, w))); d > 1e-60 {
+			return fmt.Errorf("I_%v(%v,%v): table-driven series differs by %g", x, a, b, d)
+		}
+	}
+	for _, c := range [][2]float64{{0.5, 0x1p-55}, {300, 512}, {0.05, 1e-300}, {2, 3}} {
+		p, q := GammaIncBig(c[0], c[1])
+		p2, q2 := GammaIncBigLg(c[0], c[1], LnGamma(Add(NF(c[0]), NF(1))))
+		if d := math.Abs(F64(Sub(p, p2))) + math.Abs(F64(Sub(q, q2))); d > 1e-60 {
+			return fmt.Errorf("P,Q(%v,%v): variant with supplied lnGamma differs by %g", c[0], c[1], d)
+		}
+	}
 	// I_x(1/2,1/2) = (2/pi) asin(sqrt x): at x = 1/2 it is 1/2, at x=1/4 it is 1/3
 	if v, _ := BetaIncBig(0.25, 0.5, 0.5); math.Abs(F64(Sub(v, Quo(NF(1), NF(3))))) > 1e-40 {
 		return fmt.Errorf("I_1/4(1/2,1/2) != 1/3: %v", F64(v))
+	}
+	// ... and for tiny x it is (2/pi) sqrt(x) (1 + x/6 + O(x^2))
+	for _, x := range []float64{0x1p-55, 1e-17, 1e-300} {
+		v, _ := BetaIncBig(x, 0.5, 0.5)
+		want := Mul(Quo(NF(2), Pi()), Mul(Sqrt(NF(x)), Add(NF(1), Quo(NF(x), NF(6)))))
+		if d := rel(v, want); d > 1e-30 {
+			return fmt.Errorf("I_%v(1/2,1/2) != (2/pi) sqrt(x)(1+x/6): rel %g", x, d)
+		}
 	}
 	// incomplete gamma
 	if _, q := GammaIncBig(1, 1); math.Abs(F64(q)-0.36787944117144233) > 1e-16 {
